@@ -264,6 +264,7 @@ fn size_cases(shard: Shard, rep: &mut Report) {
 }
 
 pub fn run(_tier: Tier, shard: Shard, rep: &mut Report) {
+    set_tier(_tier);
     rep.rule = "full matrix: every stack of 1-3 levels (write side optional, each level plain or sharded(3)) x per-level content \
         {nothing, A, B} (sharded: primary or secondary shard) x {get, ensure, get_or_update x {Accept, Promote, Replace}} x populate \
         {A, B, NotFound, other error} x checker {none, inode-logging byte equality, panicking byte equality, library byte equality}; \
